@@ -34,6 +34,8 @@ def jobs(tier):
             out.append(("%s.single.P%d" % (which, P), "job", dict(which=which, shape="single", P=P, K=4, order="reversed")))
         out.append(("%s.dir1.P32768" % which, "job", dict(which=which, shape="dir1", P=32768, K=3, order="reversed")))
         out.append(("%s.flat2.P32768" % which, "job", dict(which=which, shape="flat2", P=32768, K=2 if q else 3, order="reversed")))
+        out.append(("%s.single.P32768.align-flag" % which, "job", dict(which=which, shape="single", P=32768, K=3, order="reversed", align=True)))
+        out.append(("%s.flat2.P16384.align-flag" % which, "job", dict(which=which, shape="flat2", P=16384, K=2, order="reversed", align=True)))
         out.append(("%s.nested3.P16384" % which, "job", dict(which=which, shape="nested3", P=16384, K=2, order="symbolic" if which == "3a" else "reversed")))
         out.append(("%s.order2.P16384" % which, "job", dict(which=which, shape="order2", P=16384, K=2, order="reversed")))
         if not q:
@@ -42,13 +44,14 @@ def jobs(tier):
     return out
 
 
-def job(E, which, shape, P, K, order, _mutants=None):
+def job(E, which, shape, P, K, order, align=False, _mutants=None):
     fs, sizes = cr.make_fs(E, shape, K, P, order=order, lo=1 if shape == "single" else 0)
     if shape != "single":
         E.assume(disj(*[s > 0 for s in sizes.values()]))
     w = World(fs, mutants=_mutants)
     try:
-        t = cr.create(w, which, path="/data/name", piece_length=P, progress=0)
+        # the align option is documented as ignored outside v1: passing it must not change a hybrid
+        t = cr.create(w, which, path="/data/name", piece_length=P, progress=0, **({"align": True} if align else {}))
     except Exception as ex:  # noqa: BLE001
         E.fail("C03.no-exception", "%s: %s" % (type(ex).__name__, ex))
         return
@@ -75,7 +78,7 @@ def replay(params, model, notes, workdir, seed):
     sizes = cr.concrete_sizes(shape, model)
     root, data = cr.materialize(workdir, shape, sizes, seed)
     try:
-        t = cr.real_create(params["which"], path=root, piece_length=P)
+        t = cr.real_create(params["which"], path=root, piece_length=P, **({"align": True} if params.get("align") else {}))
     except Exception as ex:  # noqa: BLE001
         return ["C03.no-exception: %s: %s" % (type(ex).__name__, ex)]
     return ["C03." + b for b in conc_hybrid(t.meta, data, P, shape)]
